@@ -3,7 +3,7 @@
    exact trace of every refusal; returned handlers are final. *)
 From Coq Require Import String List NArith ZArith Bool Lia.
 From MevVerif Require Import lib.Bytes lib.Abi proofs.Bytes_proofs model.Rules model.ProviderSvc
-  proofs.ProviderSvc_proofs model.PreconfProvider proofs.PreconfProvider_proofs.
+  proofs.ProviderSvc_proofs proofs.Rules_proofs model.PreconfProvider proofs.PreconfProvider_proofs.
 Import ListNotations.
 Open Scope N_scope.
 Arguments nset {A} k v l : simpl never.
@@ -442,3 +442,382 @@ Proof.
   split; [exact H3|]. now rewrite H4.
 Qed.
 End Traces.
+
+(* ---- handleBid never reaches the modelled crash (nil *big.Int in StoreCommitment) under the node's wiring:
+   the published amount rule already forces the amount to parse (any number of handlers, any oracle answers) -- *)
+Section NoRPanic.
+Variable K : bytes -> bytes. Variable addr : bytes.
+Let V := rules_validators. Let W := node_wiring addr.
+Definition NoRP (s : st) : Prop := forall h, nget h (hs s) <> Some (HDone RPanic).
+Lemma P_set_h h v s : v <> HDone RPanic -> NoRP s -> NoRP (set_h h v s).
+Proof. intros Hv Hp h0. unfold set_h; cbn. rewrite nget_nset. destruct (h0 =? h); [congruence|apply Hp]. Qed.
+Lemma P_add_heff e s : NoRP s -> NoRP (add_heff e s). Proof. intros Hp h0. apply Hp. Qed.
+Lemma P_set_svc x s : NoRP s -> NoRP (set_svc x s). Proof. intros Hp h0. apply Hp. Qed.
+Lemma P_finish h r s : r <> RPanic -> NoRP s -> NoRP (finish h r s).
+Proof. intros Hr Hp. unfold finish. apply P_add_heff, P_set_h; [congruence|exact Hp]. Qed.
+Lemma vbid_parses b : vbid V (to_engine b) = true -> exists amt, parse_bigint (b_amt b) = Some amt.
+Proof. cbn. intros Hv. apply provider_bid_ok_spec in Hv. destruct Hv as (_ & Ha & _).
+  apply amount_ok_spec, amount_ok_parse in Ha. destruct Ha as (v & Hp & _). cbn in Hp. eauto. Qed.
+Lemma P_on_status h b stv k s :
+  (exists amt, parse_bigint (b_amt b) = Some amt) -> NoRP s -> NoRP (on_status K W h b stv k s).
+Proof. intros (amt & Ha) Hp. unfold on_status.
+  destruct (stv =? status_rejected)%Z; [apply P_finish; [discriminate|now apply P_add_heff]|].
+  destruct (stv =? status_accepted)%Z; [|apply P_finish; [discriminate|now apply P_add_heff]].
+  destruct k.
+  - apply P_finish; [discriminate|now apply P_add_heff].
+  - apply P_finish; [discriminate|now repeat apply P_add_heff].
+  - destruct (w_da_contract W).
+    + rewrite Ha. apply P_set_h; [discriminate|]. now repeat apply P_add_heff.
+    + apply P_set_h; [discriminate|]. now repeat apply P_add_heff. Qed.
+Lemma gate_class_not_panic role o r : gate_class role o = Some r -> r <> RPanic.
+Proof. unfold gate_class. destruct (negb (role =? role_bidder)%Z); [intros [= <-]; discriminate|].
+  destruct (o_read o); [|intros [= <-]; discriminate]. destruct (o_verify o); [|intros [= <-]; discriminate].
+  destruct (o_allow o); [discriminate|intros [= <-]; discriminate]. Qed.
+Ltac solveP Hp := repeat first [ exact Hp | apply P_finish; [discriminate|] | apply P_set_h; [discriminate|]
+                               | apply P_add_heff | apply P_set_svc ].
+Lemma P_step evs s e : PInv K V W evs s -> NoRP s -> NoRP (step K V W s e).
+Proof. intros I Hp. unfold step. destruct (panicked (svc s)); [exact Hp|]. destruct e.
+  - unfold arrive. destruct (nget h (hs s)); [exact Hp|]. destruct (nget h (calls (svc s))); [exact Hp|].
+    destruct (gate_class role o) eqn:G.
+    + apply P_finish; [eapply gate_class_not_panic; eauto|]. intros h0; apply Hp.
+    + destruct (o_read o).
+      * destruct (w_processor_api W).
+        -- destruct (vbid V (to_engine b)).
+           ++ apply P_set_h; [discriminate|]. apply P_set_svc. intros h0; apply Hp.
+           ++ apply P_finish; [discriminate|]. apply P_set_svc. intros h0; apply Hp.
+        -- apply P_set_h; [discriminate|]. intros h0; apply Hp.
+      * apply P_finish; [discriminate|]. intros h0; apply Hp.
+  - unfold engine_take. destruct (nget h (hs s)) as [[b [|]|c|c|r]|]; solveP Hp.
+  - unfold abandon_h. destruct (nget h (hs s)) as [[b [|]|c|c|r]|]; solveP Hp.
+    destruct (nget h (calls (svc s))) as [[]|]; solveP Hp.
+  - solveP Hp. - solveP Hp. - solveP Hp.
+  - unfold take_decision. destruct (nget h (hs s)) as [[b [|]|c|c|r]|] eqn:Hh; solveP Hp.
+    + destruct (pi_insvc _ _ _ _ _ I _ _ _ Hh) as (_ & Hw). unfold W in Hw. rewrite node_wiring_api in Hw. discriminate.
+    + destruct (pi_insvc _ _ _ _ _ I _ _ _ Hh) as (_ & _ & Hv).
+      destruct (nget h (calls (svc s))) as [[]|]; solveP Hp.
+      destruct (chan_recv h (svc s)) as [[stv|] x]; solveP Hp.
+      apply P_on_status; [now apply vbid_parses|]. solveP Hp.
+  - unfold deadline_fire. destruct (nget h (hs s)) as [[b [|]|c|c|r]|]; solveP Hp.
+    destruct (nget h (calls (svc s))) as [[]|]; solveP Hp.
+  - unfold store_res. destruct (nget h (hs s)) as [[b a|c|c|r]|]; solveP Hp. destruct ok; solveP Hp.
+  - unfold write_res. destruct (nget h (hs s)) as [[b a|c|c|r]|]; solveP Hp. destruct ok; solveP Hp. Qed.
+Theorem no_rpanic_node evs h : nget h (hs (run K V W evs)) <> Some (HDone RPanic).
+Proof. revert h. change (NoRP (run K V W evs)). induction evs as [|e evs IH] using rev_ind.
+  - intros h. cbn. discriminate.
+  - rewrite run_app. eapply P_step; [apply run_pinv|exact IH]. Qed.
+End NoRPanic.   
+
+(* ---- explicit order of the settlement steps of a written commitment (newest first) ---------------- *)
+Theorem write_order_explicit K addr evs h c :
+  let S := run K rules_validators (node_wiring addr) evs in
+  In (HWrite h c) (heff S) ->
+  exists amt pre, parse_bigint (b_amt (c_bid c)) = Some amt /\
+    hist h S = pre ++ [HWrite h c; HStored h true; HSend h addr (calldata K amt c);
+                       HSign h (c_dig c); HTake h status_accepted] /\
+    (pre = [] \/ pre = [HReturn h RWritten] \/ pre = [HReturn h RWriteErr]).
+Proof.
+  cbn. intros Hin.
+  assert (Hh : In (HWrite h c) (hist h (run K rules_validators (node_wiring addr) evs))) by (apply in_hist; auto).
+  pose proof (handler_trace K rules_validators (node_wiring addr) evs h) as Sh.
+  pose proof (node_wiring_da addr) as Hda.
+  destruct (nget h (hs (run K rules_validators (node_wiring addr) evs))) as [[b a|c0|c0|r]|]; cbn [shape] in Sh.
+  - rewrite Sh in Hh. destruct Hh.
+  - destruct Sh as (_ & amt & _ & Sh). rewrite Sh in Hh. cbn in Hh. exfalso. intuition discriminate.
+  - destruct Sh as [(_ & amt & Hp & Sh)|(Hf & _)]; [|congruence].
+    rewrite Sh in Hh. cbn in Hh. destruct Hh as [E|Hh]; [|exfalso; intuition discriminate].
+    injection E as ->. exists amt, []. split; [exact Hp|]. split; [exact Sh|now left].
+  - destruct r; cbn [done_trace] in Sh;
+      try solve [rewrite Sh in Hh; cbn in Hh; exfalso; intuition discriminate].
+    + destruct Sh as [Sh|(d & Sh)]; rewrite Sh in Hh; cbn in Hh; exfalso; intuition discriminate.
+    + destruct Sh as (c1 & amt & _ & _ & Sh). rewrite Sh in Hh. cbn in Hh. exfalso. intuition discriminate.
+    + destruct Sh as (c1 & l' & [(_ & amt & Hp & Hl)|(Hf & _)] & Sh); [|congruence].
+      rewrite Sh, Hl in Hh. cbn in Hh. destruct Hh as [E|[E|Hh]]; [discriminate| |exfalso; intuition discriminate].
+      injection E as ->. exists amt, [HReturn h RWriteErr]. split; [exact Hp|]. split; [now rewrite Sh, Hl|tauto].
+    + destruct Sh as (c1 & l' & [(_ & amt & Hp & Hl)|(Hf & _)] & Sh); [|congruence].
+      rewrite Sh, Hl in Hh. cbn in Hh. destruct Hh as [E|[E|Hh]]; [discriminate| |exfalso; intuition discriminate].
+      injection E as ->. exists amt, [HReturn h RWritten]. split; [exact Hp|]. split; [now rewrite Sh, Hl|tauto].
+    + destruct Sh as (stv & _ & _ & Sh). rewrite Sh in Hh. cbn in Hh. exfalso. intuition discriminate.
+    + destruct Sh as (d & Sh). rewrite Sh in Hh. cbn in Hh. exfalso. intuition discriminate.
+  - rewrite Sh in Hh. destruct Hh.
+Qed.
+
+(* ---- which decision a handler acted on -------------------------------------------------------------- *)
+Section Causality.
+Variable K : bytes -> bytes.
+Variable V : validators.
+Variable W : wiring.
+
+(* the decision event that, when it was processed, named the entry of channel ch on a serving stream *)
+Definition Effective (evs : list event) (sid ch : N) (d : bytes) (st : Z) : Prop :=
+  exists pre post, evs = pre ++ Lookup sid d st :: post /\
+    pget d (pending (svc (run K V W pre))) = Some ch /\ sget sid (svc (run K V W pre)) = SIdle /\
+    vresp V d st = true /\ panicked (svc (run K V W pre)) = false.
+
+Lemma effective_mono evs e sid ch d st : Effective evs sid ch d st -> Effective (evs ++ [e]) sid ch d st.
+Proof.
+  intros (pre & post & -> & H). exists pre, (post ++ [e]). split; [|exact H]. now rewrite <- app_assoc.
+Qed.
+
+Lemma lookup_origin sid d st x sid' ch d' st' :
+  In (sid', SCalling ch d' st') (streams (lookup V sid d st x)) ->
+  In (sid', SCalling ch d' st') (streams x) \/
+  (sid' = sid /\ d' = d /\ st' = st /\ pget d (pending x) = Some ch /\ sget sid x = SIdle /\ vresp V d st = true).
+Proof.
+  unfold lookup. destruct (sget sid x) eqn:Hs; try (now left).
+  destruct (vresp V d st) eqn:Hv.
+  - destruct (pget d (pending x)) as [ch0|] eqn:Hp; [|now left].
+    cbn. unfold nset. cbn. intros [[= <- <- <- <-]|H]; [right; tauto|]. apply In_ndel in H. left. tauto.
+  - cbn. unfold nset. cbn. intros [H|H]; [discriminate|]. apply In_ndel in H. left. tauto.
+Qed.
+
+Lemma on_status_svc h b stv k s : svc (on_status K W h b stv k s) = svc s.
+Proof.
+  unfold on_status. destruct (stv =? status_rejected)%Z; [reflexivity|].
+  destruct (stv =? status_accepted)%Z; [|reflexivity].
+  destruct k; try reflexivity. destruct (w_da_contract W); [|reflexivity].
+  destruct (parse_bigint (b_amt b)); reflexivity.
+Qed.
+
+(* how one step of the handler machine moves the service *)
+Inductive svc_move (e : event) (x x' : ProviderSvc.svc) : Prop :=
+| mv_same : x' = x -> svc_move e x x'
+| mv_submit h b : nget h (calls x) = None -> x' = submit V h b x -> svc_move e x x'
+| mv_take h : x' = take h x -> svc_move e x x'
+| mv_abandon h : x' = abandon h x -> svc_move e x x'
+| mv_lookup sid d st : e = Lookup sid d st -> panicked x = false -> x' = lookup V sid d st x -> svc_move e x x'
+| mv_callback sid : x' = callback sid x -> svc_move e x x'
+| mv_recv_err sid : x' = recv_err sid x -> svc_move e x x'
+| mv_chan h : x' = snd (chan_recv h x) -> svc_move e x x'.
+
+Lemma step_svc_move s e : svc_move e (svc s) (svc (step K V W s e)).
+Proof.
+  unfold step. destruct (panicked (svc s)) eqn:Hp; [now apply mv_same|].
+  destruct e as [h role o|h|h|sid d stv|sid|sid|h k|h|h ok|h ok].
+  - unfold arrive. destruct (nget h (hs s)); [now apply mv_same|].
+    destruct (nget h (calls (svc s))) eqn:Hc; [now apply mv_same|].
+    destruct (gate_class role o); [now apply mv_same|]. destruct (o_read o) as [b|]; [|now apply mv_same].
+    destruct (w_processor_api W); [|now apply mv_same].
+    destruct (vbid V (to_engine b)); apply (mv_submit _ _ _ h b); auto.
+  - unfold engine_take. destruct (nget h (hs s)) as [[b [|]|c|c|r]|]; try (now apply mv_same). now apply (mv_take _ _ _ h).
+  - unfold abandon_h. destruct (nget h (hs s)) as [[b [|]|c|c|r]|]; try (now apply mv_same).
+    destruct (nget h (calls (svc s))) as [[b0|b0|b0|b0]|]; try (now apply mv_same). now apply (mv_abandon _ _ _ h).
+  - now apply (mv_lookup _ _ _ sid d stv).
+  - now apply (mv_callback _ _ _ sid).
+  - now apply (mv_recv_err _ _ _ sid).
+  - unfold take_decision. destruct (nget h (hs s)) as [[b [|]|c|c|r]|]; try (now apply mv_same).
+    + rewrite on_status_svc. now apply mv_same.
+    + destruct (nget h (calls (svc s))) as [[b0|b0|b0|b0]|]; try (now apply mv_same).
+      destruct (chan_recv h (svc s)) as [[stv|] x] eqn:Hcr; [|now apply mv_same].
+      rewrite on_status_svc. apply (mv_chan _ _ _ h). now rewrite Hcr.
+  - unfold deadline_fire. destruct (nget h (hs s)) as [[b [|]|c|c|r]|]; try (now apply mv_same).
+    destruct (nget h (calls (svc s))) as [[b0|b0|b0|b0]|]; now apply mv_same.
+  - unfold store_res. destruct (nget h (hs s)) as [[b a|c|c|r]|]; try (now apply mv_same). destruct ok; now apply mv_same.
+  - unfold write_res. destruct (nget h (hs s)) as [[b a|c|c|r]|]; now apply mv_same.
+Qed.
+
+Record QInv (evs : list event) : Prop := {
+  q_calling : forall sid ch d st, In (sid, SCalling ch d st) (streams (svc (run K V W evs))) -> Effective evs sid ch d st;
+  q_deliver : forall ch d st, In (EDeliver ch d st) (eff (svc (run K V W evs))) -> exists sid, Effective evs sid ch d st
+}.
+
+Lemma qinv_step evs e : QInv evs -> QInv (evs ++ [e]).
+Proof.
+  intros [Qc Qd]. set (S := run K V W evs) in *.
+  pose proof (pi_full _ _ _ _ _ (run_pinv K V W evs)) as F. fold S in F.
+  assert (Mc : forall sid ch d st, In (sid, SCalling ch d st) (streams (svc S)) -> Effective (evs ++ [e]) sid ch d st)
+    by (intros; apply effective_mono; auto).
+  assert (Md : forall ch d st, In (EDeliver ch d st) (eff (svc S)) -> exists sid, Effective (evs ++ [e]) sid ch d st).
+  { intros ch d st H. destruct (Qd _ _ _ H) as (sid & HE). exists sid. now apply effective_mono. }
+  assert (Quiet : forall x', DelivFrom (svc S) x' -> CallingSub (svc S) x' ->
+            (forall sid ch d st, In (sid, SCalling ch d st) (streams x') -> Effective (evs ++ [e]) sid ch d st) /\
+            (forall ch d st, In (EDeliver ch d st) (eff x') -> exists sid, Effective (evs ++ [e]) sid ch d st)).
+  { intros x' D C. split.
+    - intros sid ch d st H. apply Mc. now apply C.
+    - intros ch d st H. destruct (D _ _ _ H) as [H1|(sid & H1)]; [now apply Md|]. exists sid. now apply Mc. }
+  assert (G : (forall sid ch d st, In (sid, SCalling ch d st) (streams (svc (step K V W S e))) -> Effective (evs ++ [e]) sid ch d st) /\
+              (forall ch d st, In (EDeliver ch d st) (eff (svc (step K V W S e))) -> exists sid, Effective (evs ++ [e]) sid ch d st));
+    [|destruct G as (G1 & G2); constructor; rewrite (run_app K V W); assumption].
+  destruct (step_svc_move S e) as [E|h b Hn E|h E|h E|sid d st Ee Hp E|sid E|sid E|h E]; rewrite E.
+  - split; assumption.
+  - destruct (submit_facts V h b (svc S) F Hn) as (_ & Ee & Es & _). split.
+    + intros sid ch d st. rewrite Es. apply Mc.
+    + intros ch d st. rewrite Ee. apply Md.
+  - destruct (take_facts h (svc S) F) as (_ & D & C & _). apply (Quiet _ D C).
+  - destruct (abandon_facts h (svc S) F) as (_ & D & C & _). apply (Quiet _ D C).
+  - destruct (lookup_facts V sid d st (svc S) F) as (_ & D & _ & _). split.
+    + intros sid' ch d' st' H. destruct (lookup_origin _ _ _ _ _ _ _ _ H) as [H1|(-> & -> & -> & Hg & Hs & Hv)]; [now apply Mc|].
+      exists evs, []. subst e. split; [reflexivity|]. fold S. auto.
+    + intros ch d' st' H. destruct (D _ _ _ H) as [H1|(sid' & H1)]; [now apply Md|]. exists sid'. now apply Mc.
+  - destruct (callback_facts sid (svc S) F) as (_ & D & C & _). apply (Quiet _ D C).
+  - destruct (recv_err_facts sid (svc S) F) as (_ & D & C & _). apply (Quiet _ D C).
+  - destruct (chan_recv_facts h (svc S) F) as (_ & Ee & Es & _). split.
+    + intros sid ch d st. rewrite Es. apply Mc.
+    + intros ch d st. rewrite Ee. apply Md.
+Qed.
+
+Lemma run_qinv evs : QInv evs.
+Proof.
+  induction evs as [|e evs IH] using rev_ind; [|now apply qinv_step].
+  constructor; cbn; intros; tauto.
+Qed.
+
+Lemma on_status_take h b stv k s h' st' :
+  In (HTake h' st') (heff (on_status K W h b stv k s)) -> In (HTake h' st') (heff s) \/ (h' = h /\ st' = stv).
+Proof.
+  unfold on_status. destruct (stv =? status_rejected)%Z.
+  { cbn. intros [H|[H|H]]; [discriminate|injection H as <- <-; now right|now left]. }
+  destruct (stv =? status_accepted)%Z.
+  2:{ cbn. intros [H|[H|H]]; [discriminate|injection H as <- <-; now right|now left]. }
+  destruct k.
+  - cbn. intros [H|[H|H]]; [discriminate|injection H as <- <-; now right|now left].
+  - cbn. intros [H|[H|[H|H]]]; [discriminate|discriminate|injection H as <- <-; now right|now left].
+  - destruct (w_da_contract W).
+    + destruct (parse_bigint (b_amt b)); cbn.
+      * intros [H|[H|[H|H]]]; [discriminate|discriminate|injection H as <- <-; now right|now left].
+      * intros [H|[H|[H|H]]]; [discriminate|discriminate|injection H as <- <-; now right|now left].
+    + cbn. intros [H|[H|[H|H]]]; [discriminate|discriminate|injection H as <- <-; now right|now left].
+Qed.
+
+(* a status reaches a handler only out of its own channel (or from the auto-accepting processor) *)
+Lemma step_take s e h st :
+  In (HTake h st) (heff (step K V W s e)) ->
+  In (HTake h st) (heff s) \/
+  (exists b, nget h (hs s) = Some (HInSvc b true)) \/
+  (exists b, nget h (hs s) = Some (HInSvc b false) /\ cget h (svc s) = CFull st).
+Proof.
+  unfold step. destruct (panicked (svc s)); [now left|].
+  destruct e as [h0 role o|h0|h0|sid d stv|sid|sid|h0 k|h0|h0 ok|h0 ok]; try (now left).
+  - unfold arrive. destruct (nget h0 (hs s)); [now left|]. destruct (nget h0 (calls (svc s))); [now left|].
+    destruct (gate_class role o); [cbn; intros [H|H]; [discriminate|now left]|].
+    destruct (o_read o); [|cbn; intros [H|H]; [discriminate|now left]].
+    destruct (w_processor_api W); [|now left].
+    destruct (vbid V (to_engine b)); [now left|cbn; intros [H|H]; [discriminate|now left]].
+  - unfold engine_take. destruct (nget h0 (hs s)) as [[b [|]|c|c|r]|]; now left.
+  - unfold abandon_h. destruct (nget h0 (hs s)) as [[b [|]|c|c|r]|]; try (now left).
+    destruct (nget h0 (calls (svc s))) as [[b0|b0|b0|b0]|]; try (now left). cbn. intros [H|H]; [discriminate|now left].
+  - unfold take_decision. destruct (nget h0 (hs s)) as [[b [|]|c|c|r]|] eqn:Hh; try (now left).
+    + intros H. apply on_status_take in H. destruct H as [H|(-> & ->)]; [now left|]. right. left. eauto.
+    + destruct (nget h0 (calls (svc s))) as [[b0|b0|b0|b0]|]; try (now left).
+      destruct (chan_recv h0 (svc s)) as [[stv|] x] eqn:Hcr; [|now left].
+      intros H. apply on_status_take in H. destruct H as [H|(-> & ->)]; [now left|]. right. right. exists b.
+      split; [exact Hh|]. unfold chan_recv in Hcr. destruct (cget h0 (svc s)); try discriminate. now injection Hcr as <- _.
+  - unfold deadline_fire. destruct (nget h0 (hs s)) as [[b [|]|c|c|r]|]; try (now left).
+    + cbn. intros [H|H]; [discriminate|now left].
+    + destruct (nget h0 (calls (svc s))) as [[b0|b0|b0|b0]|]; try (now left). cbn. intros [H|H]; [discriminate|now left].
+  - unfold store_res. destruct (nget h0 (hs s)) as [[b a|c|c|r]|]; try (now left).
+    destruct ok; cbn; [intros [H|[H|H]]|intros [H|[H|H]]]; try discriminate; now left.
+  - unfold write_res. destruct (nget h0 (hs s)) as [[b a|c|c|r]|]; try (now left). cbn. intros [H|H]; [discriminate|now left].
+Qed.
+
+Lemma take_effective evs h st :
+  w_processor_api W = true -> In (HTake h st) (heff (run K V W evs)) -> exists sid d, Effective evs sid h d st.
+Proof.
+  intros Hw. induction evs as [|e evs IH] using rev_ind; [intros []|].
+  rewrite (run_app K V W). intros H. apply step_take in H. destruct H as [H|[(b & Hh)|(b & Hh & Hc)]].
+  - destruct (IH H) as (sid & d & HE). exists sid, d. now apply effective_mono.
+  - destruct (pi_insvc _ _ _ _ _ (run_pinv K V W evs) _ _ _ Hh) as (_ & Hf). congruence.
+  - destruct (pi_full _ _ _ _ _ (run_pinv K V W evs) _ _ Hc) as (d & Hd).
+    destruct (q_deliver _ (run_qinv evs) _ _ _ Hd) as (sid & HE). exists sid, d. now apply effective_mono.
+Qed.
+
+(* the decision a handler acted on: a Lookup event that comes AFTER the handler's Arrive and that, when it was
+   processed on a serving stream, found the entry registered by THIS handler under the decided digest *)
+Theorem decision_for_handler evs h st :
+  w_processor_api W = true -> In (HTake h st) (heff (run K V W evs)) ->
+  exists sid d pre post,
+    evs = pre ++ Lookup sid d st :: post /\
+    pget d (pending (svc (run K V W pre))) = Some h /\ sget sid (svc (run K V W pre)) = SIdle /\
+    vresp V d st = true /\
+    (exists role o b, In (Arrive h role o) pre /\ nget h (arr (run K V W pre)) = Some (role, o) /\
+                      o_read o = Some b /\ b_dig b = d).
+Proof.
+  intros Hw Hin. destruct (take_effective evs h st Hw Hin) as (sid & d & pre & post & -> & Hp & Hs & Hv & _).
+  exists sid, d, pre, post. repeat split; try assumption.
+  pose proof (run_pinv K V W pre) as P.
+  destruct (inv_owner _ _ (pi_svc _ _ _ _ _ P) _ _ (pget_In _ _ _ Hp)) as (c & Hc & _ & Hd).
+  destruct (pi_calls _ _ _ _ _ P _ _ Hc) as (_ & role & o & Ha & Hr).
+  exists role, o, (call_bid c). split; [now apply (arr_origin K V W)|]. split; [exact Ha|]. split; [exact Hr|].
+  destruct c; exact Hd.
+Qed.
+End Causality.
+
+(* ---- the 5 s deadline of handleBid, as a statement ------------------------------------------------ *)
+Lemma deadline_ms_value : deadline_ms = 5000.
+Proof. reflexivity. Qed.
+
+(* a handler that is waiting for the engine when [pre] ends; whatever happens from deadline_ms = 5000 ms
+   after it started waiting on (decisions, store and write results, anything), it returns the context
+   error and its complete effect trace is that return: no signature, no transaction, no commitment *)
+Theorem late_events_no_effect K V W pre after h b t :
+  deadline_ms <= t ->
+  panicked (svc (run K V W pre)) = false ->
+  nget h (hs (run K V W pre)) = Some (HInSvc b false) ->
+  (exists b0, nget h (calls (svc (run K V W pre))) = Some (PHanded b0)) ->
+  let S := run K V W (timed_history h t pre after) in
+  nget h (hs S) = Some (HDone RCtx) /\ hist h S = [HReturn h RCtx].
+Proof.
+  intros Ht Hp Hh Hc. unfold timed_history. destruct (N.ltb_spec t deadline_ms) as [Hlt|_]; [lia|].
+  cbn zeta. rewrite app_assoc.
+  assert (H1 : nget h (hs (run K V W (pre ++ [DeadlineFire h]))) = Some (HDone RCtx)).
+  { rewrite (run_app K V W). now apply (deadline_step K V W _ h b). }
+  destruct (done_final K V W (pre ++ [DeadlineFire h]) after h RCtx H1) as (H2 & H3).
+  split; [exact H2|]. now apply refusal_deadline.
+Qed.
+
+(* arrival records are never rewritten *)
+Lemma step_arr K V W s e :
+  arr (step K V W s e) = arr s \/
+  exists h0 role o, nget h0 (hs s) = None /\ arr (step K V W s e) = nset h0 (role, o) (arr s).
+Proof.
+  unfold step. destruct (panicked (svc s)); [now left|].
+  destruct e as [h0 role o|h0|h0|sid d stv|sid|sid|h0 k|h0|h0 ok|h0 ok]; try (now left).
+  - unfold arrive. destruct (nget h0 (hs s)) eqn:Hh; [now left|]. destruct (nget h0 (calls (svc s))); [now left|].
+    right. exists h0, role, o. split; [exact Hh|].
+    destruct (gate_class role o); [reflexivity|]. destruct (o_read o); [|reflexivity].
+    destruct (w_processor_api W); [|reflexivity]. destruct (vbid V (to_engine b)); reflexivity.
+  - unfold engine_take. destruct (nget h0 (hs s)) as [[b [|]|c|c|r]|]; now left.
+  - unfold abandon_h. destruct (nget h0 (hs s)) as [[b [|]|c|c|r]|]; try (now left).
+    destruct (nget h0 (calls (svc s))) as [[b0|b0|b0|b0]|]; now left.
+  - unfold take_decision. destruct (nget h0 (hs s)) as [[b [|]|c|c|r]|]; try (now left).
+    + left. apply on_status_arr.
+    + destruct (nget h0 (calls (svc s))) as [[b0|b0|b0|b0]|]; try (now left).
+      destruct (chan_recv h0 (svc s)) as [[stv|] x]; [|now left]. left. now rewrite on_status_arr.
+  - unfold deadline_fire. destruct (nget h0 (hs s)) as [[b [|]|c|c|r]|]; try (now left).
+    destruct (nget h0 (calls (svc s))) as [[b0|b0|b0|b0]|]; now left.
+  - unfold store_res. destruct (nget h0 (hs s)) as [[b a|c|c|r]|]; try (now left). destruct ok; now left.
+  - unfold write_res. destruct (nget h0 (hs s)) as [[b a|c|c|r]|]; now left.
+Qed.
+
+Lemma arr_final K V W pre rest h ro :
+  nget h (arr (run K V W pre)) = Some ro -> nget h (arr (run K V W (pre ++ rest))) = Some ro.
+Proof.
+  induction rest as [|e rest IH] using rev_ind; [now rewrite app_nil_r|].
+  intros Ha. specialize (IH Ha). rewrite app_assoc, (run_app K V W).
+  destruct (step_arr K V W (run K V W (pre ++ rest)) e) as [E|(h0 & role & o & Hn & E)]; rewrite E; [exact IH|].
+  rewrite nget_nset_neq; [exact IH|]. intros ->.
+  apply (pi_arr _ _ _ _ _ (run_pinv K V W (pre ++ rest)) _ _ IH). exact Hn.
+Qed.
+
+(* C01_gate with the decision placed in the history *)
+Theorem gate_ordered_node K addr evs e :
+  In e (heff (run K rules_validators (node_wiring addr) evs)) -> is_commit_effect e = true ->
+  exists role o b a sid pre post,
+    evs = pre ++ Lookup sid (b_dig b) status_accepted :: post /\
+    In (Arrive (eff_handler e) role o) pre /\
+    role = role_bidder /\ o_read o = Some b /\ o_verify o = VOk a /\ o_allow o = true /\
+    vbid rules_validators (to_engine b) = true /\
+    pget (b_dig b) (pending (svc (run K rules_validators (node_wiring addr) pre))) = Some (eff_handler e) /\
+    sget sid (svc (run K rules_validators (node_wiring addr) pre)) = SIdle /\
+    In (HTake (eff_handler e) status_accepted) (heff (run K rules_validators (node_wiring addr) evs)) /\
+    (forall h c, e = HWrite h c -> c_bid c = b).
+Proof.
+  intros Hin Hc. set (V := rules_validators). set (W := node_wiring addr).
+  destruct (pi_eff _ _ _ _ _ (run_pinv K V W evs) _ Hin Hc)
+    as (b & ((role & o & a & Ha & Hr & Hrd & Hv & Hal) & En & T) & Hw).
+  destruct (En (node_wiring_api addr)) as (Hvb & _).
+  destruct (decision_for_handler K V W evs (eff_handler e) status_accepted (node_wiring_api addr) T)
+    as (sid & d & pre & post & Ee & Hp & Hs & _ & role' & o' & b' & HA & Ha' & Hrd' & Hd).
+  rewrite Ee in Ha. rewrite (arr_final K V W pre (Lookup sid d status_accepted :: post) _ _ Ha') in Ha.
+  injection Ha as -> ->. rewrite Hrd in Hrd'. injection Hrd' as <-. subst d.
+  exists role, o, b, a, sid, pre, post. repeat split; assumption.
+Qed.
